@@ -10,12 +10,12 @@ NOTE = ("Trusted base: z3 5.1, CrossHair's models of Python built-ins as adjuste
         "/repo's working tree. Each verdict holds for all values inside the bounds stated in the evidence file; nothing is claimed outside them.")
 
 CHECKS = {
-    "C07": ("DESIGN 4 C07", "Leaf lemmas (every integer of every width, bool, UUID, Offset, float/double via z3 FP theory, strings over all of Unicode up to a length bound) plus container lemmas over a stub element codec give round trip and exact consumption for every type tree by structural induction; nested spot types and node resolution exercise the induction argument. Solver verdict per lemma: all values within bounds."),
+    "C07": ("DESIGN 4 C07", "Leaf lemmas (every integer of every width, bool, UUID, Offset, float/double via z3 FP theory, strings over all of Unicode up to a length bound) plus container lemmas over a stub element codec give round trip and exact consumption for every type tree by structural induction; nested spot types, containers over real integer leaves of every width, float pairs, variants of unequal size inside containers, node resolution (incl. empty / zero-sized nodes) and decode-edit-decode histories exercise the induction argument and what it cannot see. Solver verdict per lemma: all values within bounds."),
     "C08": ("DESIGN 4 C08", "Same symbolic runs as C07 judged by an independent byte-level reference of the documented format (both directions: encoder output read by the reference, reference bytes read by the decoder). The Java codec cannot be built or executed symbolically here and is outside the claim."),
 }
 
 CHECKS.update({
-    "C15": ("DESIGN 4 C15", "Tokeniser lemma decided by z3's regex theory over all characters and unbounded token length (pattern read from the current source), plus exhaustive path exploration of the real parser against an independent recursive-descent recogniser for every string over {a,b,<,>,,} up to length N (iff, exact tree, TypeNameError only). The characters are concrete per path because re.findall is C code."),
+    "C15": ("DESIGN 4 C15", "Tokeniser lemma decided by z3's regex theory over all characters and unbounded token length (pattern read from the current source), plus exhaustive path exploration of the real parser against an independent recursive-descent recogniser for every string over {a,b,<,>,,} up to length N (iff, exact tree, TypeNameError only), a sweep of 143 characters as name characters, and grammatical names of depth 3 with every pair of positions replaced by a delimiter or letter. The characters are concrete per path because re.findall is C code."),
     "C19": ("DESIGN 4 C19", "Assignment sequences over size / initialized_size / contents with the size values symbolic over the full 64-bit range, constructor and loader rejection with symbolic sizes, block address / contains_offset / contains_address with every integer symbolic, block contents over bounded offsets; each sequence ends with a message-level save/load."),
 })
 
@@ -46,7 +46,7 @@ CHECKS.update({
 
 CHECKS.update({
     "C09": ("DESIGN 4 C09", "Loader on messages built from the descriptors: each reference field selects its target from a pool containing every node kind, the IR and an unknown UUID; well-typed closed files must load with every reference being (Python `is`) the object reached through containment, anything else must raise DeserializationError exactly; AuxData UUID/Offset entries at IR and module level resolve to the attached object or stay plain UUIDs."),
-    "C17": ("DESIGN 4 C17", "Header with all 8 bytes symbolic (and every shorter prefix) decided by z3; message version field symbolic; every truncation point and single-bit flip of a valid file and every single structural fault (uuid fields set to clashing / foreign / unknown / wrong-length values, undeclared enum numbers, size below contents, kind-less blocks and expressions, ...) enumerated by the engine: the loader must raise or return an IR that satisfies the C03 and C04 oracles, has well-typed references and can be saved again."),
+    "C17": ("DESIGN 4 C17", "Header with all 8 bytes symbolic (and every shorter prefix) decided by z3; message version field symbolic; every truncation point and single-bit flip of a valid file and every single structural fault (uuid fields set to clashing / foreign / unknown / wrong-length values, undeclared enum numbers, size below contents, kind-less blocks and expressions, ...) and every dangling / ill-typed / wrong-length reference enumerated by the engine, whole-file loads with the message version in a set of values: the loader must raise (ValueError where the property says so) or return an IR that satisfies the C03 and C04 oracles, has no two attached nodes with one UUID, has well-typed references and integer symbol values, stored bytes within size, and can be saved again."),
 })
 
 NOT_APPLICABLE = {
